@@ -39,3 +39,5 @@ mod gen_c05;
 mod c04;
 #[cfg(kani)]
 mod c11;
+#[cfg(kani)]
+mod c08;
